@@ -1,4 +1,4 @@
-CONSTANTS K = 3 Dev = {} MaxEnv = 6
+CONSTANTS K = 4 Dev = {} MaxEnv = 9
 SPECIFICATION Spec
 INVARIANTS Retired ProtSane StateAgreesWithQueue
 PROPERTIES QInert
